@@ -2,6 +2,7 @@
 From Coq Require Import List QArith Qminmax ZArith NArith Bool Arith.
 From QmcV Require Import Model.Prog Model.Sse Model.Ham Model.Diagonal Model.Tempering
      Proofs.ProgLemmas Proofs.TemperingProofs Proofs.SseWeight Proofs.ThermalProofs Proofs.SwapRatio.
+From QmcV Require Import Proofs.Expect Proofs.TemperingStationary.
 Import ListNotations.
 Open Scope Q_scope.
 
@@ -87,3 +88,49 @@ Theorem C05_p_swap_is_weight_ratio_checked : forall a b : replica,
      * sse_weight (ising_ham (rp_ham b)) (rp_beta b) (rp_slots a).
 Proof. exact p_swap_is_weight_ratio_checked. Qed.
 Print Assumptions C05_p_swap_is_weight_ratio_checked.
+
+(* ---- the whole replica-exchange step as ONE program on ladders: the product of the replicas' own SSE
+   weights, W_0(C_0) W_1(C_1) ... (each with its own Hamiltonian and beta), is stationary under
+   tempering_step — fair choice of the order of the two pairing phases, one Metropolis test per neighbouring
+   pair — on every ladder space that is closed under neighbour exchanges and whose neighbouring pairs
+   satisfy the executable premise swap_hyps (same graph and signs, legal strings, equal lengths, beta > 0).
+   So every ladder position keeps its own thermal weight. ---- *)
+Theorem C05_tempering_step_stationary : forall (xs : list (list replica)),
+  NoDup xs ->
+  (forall l, In l xs -> (1 < length l)%nat) ->
+  (forall l, In l xs -> pairs_ok (fun a b => swap_hyps a b = true) l /\ pairs_ok (fun a b => swap_hyps a b = true) (tl l)) ->
+  (forall pre a b suf, In (pre ++ a :: b :: suf) xs ->
+     In (pre ++ fst (swap_replicas a b) :: snd (swap_replicas a b) :: suf) xs) ->
+  forall f : list replica -> Q,
+    Qsum (map (fun l => ladder_weight l * expect (ladder_step l) f) xs) == Qsum (map (fun l => ladder_weight l * f l) xs).
+Proof. exact ising_tempering_step_stationary. Qed.
+Print Assumptions C05_tempering_step_stationary.
+
+(* a pairing phase is a REVERSIBLE kernel on ladders for the product weight, for any exchange rule whose
+   acceptance ratio is the ratio of the pair weights (abstract over the replica type) *)
+Theorem C05_phase_detailed_balance : forall (A : Type) (eqb : A -> A -> bool) (w1 : A -> Q) (ps : A -> A -> Q)
+    (swp : A -> A -> A * A) (Dp : A -> A -> Prop),
+  (forall x y, eqb x y = true <-> x = y) ->
+  (forall a b, Dp a b -> 0 < w1 a /\ 0 < w1 b) ->
+  (forall a b, swp (fst (swp a b)) (snd (swp a b)) = (a, b)) ->
+  (forall a b, Dp a b -> ps a b * (w1 a * w1 b) == w1 (fst (swp a b)) * w1 (snd (swp a b))) ->
+  forall l l', pairs_ok Dp l -> pairs_ok Dp l' ->
+    Wl w1 l * mass (leqb eqb l') (denote (phase_l ps swp l)) == Wl w1 l' * mass (leqb eqb l) (denote (phase_l ps swp l')).
+Proof. intros A eqb w1 ps swp Dp He Hp Hi Hr. exact (phase_l_detailed_balance eqb He w1 ps swp Dp Hp Hi Hr). Qed.
+Print Assumptions C05_phase_detailed_balance.
+
+(* the kernels of the theorem are the model programs of tempering_container.rs (replayed on raw words) *)
+Theorem C05_step_is_model_step : forall (A : Type) (ps : A -> A -> Q) (swp : A -> A -> A * A) l (F : list A -> Q),
+  (1 < length l)%nat ->
+  expect (bind (tempering_step ps swp l) (fun rc => Ret (fst rc))) F == expect (step_l ps swp l) F.
+Proof. exact @tempering_step_is_step_l. Qed.
+Print Assumptions C05_step_is_model_step.
+
+(* non-vacuity: a two-replica ladder with different Hamiltonians and betas, and its exchange *)
+Example C05_ex_ladder_space :
+  NoDup ex_ladders
+  /\ (forall l, In l ex_ladders -> (1 < length l)%nat)
+  /\ (forall l, In l ex_ladders -> pairs_ok (fun a b => swap_hyps a b = true) l /\ pairs_ok (fun a b => swap_hyps a b = true) (tl l))
+  /\ (forall pre a b suf, In (pre ++ a :: b :: suf) ex_ladders ->
+        In (pre ++ fst (swap_replicas a b) :: snd (swap_replicas a b) :: suf) ex_ladders).
+Proof. exact ex_ladders_ok. Qed.
